@@ -155,6 +155,61 @@ func registerStd(e *Engine) {
 		}
 		return eqCells(fr, s[:len(pre)], pre)
 	})
+	// strings.* on symbolic strings: run the bytes.* twin from SSA on the cells
+	viaBytes := func(name string, nStr int, resKind string) {
+		e.reg("strings."+name, func(fr *frame, args []value) value {
+			allConc := true
+			for i := 0; i < nStr; i++ {
+				if _, ok := args[i].(string); !ok {
+					allConc = false
+				}
+			}
+			real := e.pkg("strings").Func(name)
+			if allConc {
+				return runBody(fr, real, args)
+			}
+			twin := e.pkg("bytes").Func(name)
+			bargs := make([]value, len(args))
+			copy(bargs, args)
+			for i := 0; i < nStr; i++ {
+				bargs[i] = strCells(fr, args[i])
+			}
+			res := call(fr, fr.callpos, twin, bargs)
+			switch resKind {
+			case "strs":
+				in, _ := res.([]value)
+				if in == nil {
+					return []value(nil)
+				}
+				out := make([]value, len(in))
+				for i, b := range in {
+					out[i] = cellsToString(b.([]value))
+				}
+				return out
+			case "str":
+				return cellsToString(res.([]value))
+			}
+			return res
+		})
+	}
+	viaBytes("Split", 2, "strs")
+	viaBytes("SplitN", 2, "strs")
+	viaBytes("Count", 2, "")
+	viaBytes("Contains", 2, "")
+	viaBytes("HasSuffix", 2, "")
+	viaBytes("TrimPrefix", 2, "str")
+	viaBytes("TrimSuffix", 2, "str")
+	e.reg("strings.Join", func(fr *frame, args []value) value {
+		elems, _ := args[0].([]value)
+		var out value = ""
+		for i, el := range elems {
+			if i > 0 {
+				out = concatStr(out, args[1])
+			}
+			out = concatStr(out, el)
+		}
+		return out
+	})
 	e.reg("strings.ToLower", strFn1(strings.ToLower))
 	e.reg("strings.ToUpper", strFn1(strings.ToUpper))
 	e.reg("strings.TrimSpace", strFn1(strings.TrimSpace))
@@ -199,6 +254,16 @@ func registerStd(e *Engine) {
 			}
 		}
 		return int64(-1)
+	})
+	e.reg("internal/bytealg.Count", func(fr *frame, args []value) value {
+		n := int64(0)
+		for _, b := range args[0].([]value) {
+			eq := eqValue(fr, types.Typ[types.Uint8], b, args[1])
+			if fr.p.branch(fr, eq, nil) {
+				n++
+			}
+		}
+		return n
 	})
 	e.reg("internal/bytealg.Equal", func(fr *frame, args []value) value {
 		return eqCells(fr, args[0].([]value), args[1].([]value))
